@@ -386,7 +386,7 @@ Section BatchRound.
   Proof.
     intros ps Hps. unfold batch_body, a_select. cbn [validate_sel bind]. rewrite Hk. cbn [bind fold_res fst snd].
     unfold x_sel1. rewrite Hk. fold dk. rewrite (Hix dk) by (apply nth_In; exact Hkl). cbn [negb].
-    fold cs. rewrite map_map.
+    fold cs. replace (nodupb cs) with true by (symmetry; exact Hnd). cbn [negb]. rewrite map_map.
     rewrite (all_some_map_some _ (fun p => p)) by (intros p Hp; apply index_of_nodup; [exact Hnd|apply Hps, Hp]).
     rewrite map_id. cbn [bind].
     set (sel := x_take_many k ps a).
